@@ -3,6 +3,7 @@
 package cl
 
 import (
+	"math"
 	"math/big"
 
 	"github.com/ohler55/slip"
@@ -44,7 +45,11 @@ func (f *Oneminus) Call(s *slip.Scope, args slip.List, depth int) (result slip.O
 	slip.CheckArgCount(s, depth, f, args, 1, 1)
 	switch ta := args[0].(type) {
 	case slip.Fixnum:
-		result = ta - 1
+		if ta == math.MinInt64 {
+			result = (*slip.Bignum)(new(big.Int).Sub(big.NewInt(int64(ta)), big.NewInt(1)))
+		} else {
+			result = ta - 1
+		}
 	case slip.Octet:
 		result = ta - 1
 	case slip.SingleFloat:
